@@ -11,10 +11,32 @@
 // a run under a vote lock schedule that grows with the height (2 blocks below height 20, 6 from
 // there on; the main net's grows from 14400 to 302400 at height 432000).
 //
+// The "pool" stream (generated from the seed; corpus case corpus-pool-vote-lag): a random tree with
+// many vote outputs in which transactions of the next block first go through the node's REAL
+// transaction pool (Chain.ValidateTx).  The pool's messages (new / removed transaction) are posted on
+// the node's dispatcher; the harness queues them and hands them, in order, to the dispatcher the
+// wallet listens on (wallet.memPoolTxQueryLoop -> AddUnconfirmedTx / RemoveUnconfirmedTx) with a
+// generated lag of 0..n node events - the scheduler's freedom in reality.  So the keeper's
+// unconfirmed map holds copies of outputs (ValidHeight computed for block height 0) that are not
+// mined yet, mined and still locked, mined and spent again, or mined on an abandoned branch, next to
+// the wallet's confirmed records (obs:record-and-unconfirmed-copy:* in the distribution).  In all
+// other streams the messages are handed over after every delivery.
+//
 // "Usable" is what the real keeper says: utxoKeeper.findUtxos (through the hook
 // account/utxo_keeper_c25_verif.go, on the account manager's own keeper whose current height is
 // Chain.BestBlockHeight) lists the output for its (account, asset, vote), or ReserveParticular
 // accepts it.
+//
+// The keeper is asked both ways: useUnconfirmed = false (the 'usable' column above) and
+// useUnconfirmed = true (findUtxos for every (account, vote) and ReserveParticular for every output id
+// the wallet's db or the unconfirmed map knows).  Whatever the keeper hands out only with
+// useUnconfirmed = true and that IS an unspent output of the wallet's chain must be spendable at the
+// next height like any other: class=immature-reported-mature when findUtxos lists it,
+// class=immature-reserved-unconfirmed-copy when ReserveParticular reserves it (the code before /repo
+// commit 781a2de1 did: findUtxo preferred the unconfirmed copy; corpus-pool-vote-lag is the
+// regression case).  Outputs handed out
+// with useUnconfirmed = true that are not on the wallet's chain are what the caller asked for: counted
+// (obs:unconfirmed-offer-not-on-chain, ...-is-vote-output), not judged.
 //
 // Direct oracle (implementation outputs only), after EVERY delivery, for every usable record:
 // the REAL state.UtxoViewpoint applied to the chain the wallet is attached to must hold the output
@@ -28,7 +50,12 @@
 // history, because of the open finding C10-vote-utxo-height-lost.
 //
 // Correspondence: per delivery (wallet in step?, node height, per present record: ValidHeight,
-// usable, consensus verdict 0/1/2) against C25.Run.run_c25.
+// usable, consensus verdict 0/1/2) against C25.Run.run_c25.  Second case file (cases_keeper_*.v):
+// for the observed states with copies in the keeper's unconfirmed map (at most 8 per case) the
+// wallet's records, the copies and the node's height go to C25.KeeperRun.run_keeper (model of
+// findUtxos with its seen set, findUtxo, ReserveParticular: C25/Keeper.v) and are compared with
+// what the real keeper hands out for the four (account, vote) queries and for every output id,
+// with useUnconfirmed true and false (ids and ValidHeights of the utxos handed out, immature amounts).
 package main
 
 import (
@@ -36,6 +63,7 @@ import (
 	"strings"
 
 	"verifharness/c24/wsim"
+	"verifharness/fraglib"
 	. "verifharness/hlib"
 )
 
@@ -57,7 +85,7 @@ func coqObs25(d wsim.Deliv) string {
 func run(c *Ctx) error {
 	c.Stats.Rule = "a case counts as non-trivial when the wallet detached at least one block (outputs may have been restored); distinct = distinct (kind, schedule, seed)"
 	var cases []*wsim.Case
-	for _, k := range []string{"corpus-cb-unspend-down", "corpus-vote-unspend-down", "corpus-vote-detach"} {
+	for _, k := range []string{"corpus-pool-vote-lag", "corpus-cb-unspend-down", "corpus-vote-unspend-down", "corpus-vote-detach"} {
 		cases = append(cases, &wsim.Case{ID: len(cases), Seed: 1, Kind: k})
 	}
 	cases = append(cases, &wsim.Case{ID: len(cases), Seed: 1, Kind: "corpus-step-schedule", Sched: "step"})
@@ -71,6 +99,12 @@ func run(c *Ctx) error {
 	for i := 0; i < c.N(6, 20); i++ {
 		cases = append(cases, &wsim.Case{ID: len(cases), Seed: c.Rng.Next(), Kind: "votes", Sched: "step"})
 	}
+	// the "pool" stream: transactions reach the node's pool before their block and the wallet's pool
+	// message loop lags behind the chain (confirmed records coexist with copies in the keeper's
+	// unconfirmed map); appended so that the cases above keep their seeds
+	for i, n := 0, c.N(40, 100); i < n; i++ {
+		cases = append(cases, &wsim.Case{ID: len(cases), Seed: c.Rng.Next(), Kind: "pool"})
+	}
 	res, err := wsim.RunAll("c25", cases)
 	if err != nil {
 		return err
@@ -80,7 +114,8 @@ func run(c *Ctx) error {
 		what  string
 		descr interface{}
 	}
-	var known []failRec
+	var known, reserved, reservedStale []failRec
+	keeper := NewCaseFile(2000000)
 	for _, cs := range cases {
 		r := res[cs.ID]
 		if r == nil {
@@ -111,9 +146,24 @@ func run(c *Ctx) error {
 			// the evidence keeps the first 20 failures: witnesses of the recorded finding must not crowd out anything else
 			if strings.HasPrefix(f, "class=vote-lock-schedule") {
 				known = append(known, failRec{f, descr})
+			} else if strings.HasPrefix(f, "class=immature-reserved-unconfirmed-copy") {
+				// a class with many witnesses when it fires (it did before /repo commit 781a2de1): kept
+				// apart for the same reason; cases where the wallet is in step with its node first
+				if strings.Contains(f, "in step with the node: true") {
+					reserved = append(reserved, failRec{f, descr})
+				} else {
+					reservedStale = append(reservedStale, failRec{f, descr})
+				}
 			} else {
 				c.Stats.Fail(f, descr)
 			}
+		}
+		for i, k := range r.Keeper {
+			m, o := wsim.CoqKeeperCase(k)
+			kid := keeper.Add(m, o)
+			c.Stats.CaseIndex[fmt.Sprint(kid)] = map[string]interface{}{"keeper_observation": i, "case": descr}
+			c.Stats.Count("keeper_model_evaluated")
+			c.Stats.Count("model_evaluated")
 		}
 		var obs []string
 		for _, d := range r.Delivs {
@@ -132,7 +182,25 @@ func run(c *Ctx) error {
 		}
 		c.Stats.Fail(f.what, f.descr)
 	}
+	nReserved := len(reserved) + len(reservedStale)
+	for i, f := range append(reserved, reservedStale...) {
+		if i >= 4 {
+			break
+		}
+		c.Stats.Fail(f.what, f.descr)
+	}
 	c.Stats.Extra["known_finding_witnesses"] = len(known)
+	c.Stats.Extra["reserved_through_unconfirmed_copy_witnesses"] = nReserved
 	c.Cases.Shard = 20
-	return c.Cases.Write(c.Out, header, "c25_res", "c25_res_eqb")
+	if err := c.Cases.Write(c.Out, header, "c25_res", "c25_res_eqb"); err != nil {
+		return err
+	}
+	// the keeper's lookups (findUtxos / ReserveParticular, useUnconfirmed true and false) on the
+	// observed states that have copies in the unconfirmed map, against C25.Keeper
+	keeper.Shard = 100
+	if err := keeper.WriteNamed(c.Out, "keeper", "From Coq Require Import List NArith Bool.\nFrom C24 Require Import Model.\nFrom C25 Require Import Keeper KeeperRun.\nImport ListNotations.\nOpen Scope N_scope.\n", "keeper_res", "keeper_res_eqb"); err != nil {
+		return err
+	}
+	// translator cross-check: the generated consensus.VotePendingBlockNums (C25/Tie.v) against the compiled one
+	return fraglib.VotePending(c)
 }
